@@ -47,11 +47,20 @@ def layout_body(stmts, counter, handlers):
         s_pc = counter[0]
         counter[0] += 2
         s[1]["pc"] = s_pc + 1
+        if s[0] == "finlimit":
+            # try { throw } catch { throw } finally { for(;;){} }: the finally handler covers try + catch
+            p = counter[0]
+            counter[0] += 8
+            s[1]["base"] = p
+            handlers.append((p, p + 6, 0))
+            handlers.append((p, p + 2, 0))
         if s[0] == "try":
             start = counter[0]
+            slot = len(handlers)
+            handlers.append(None)
             layout_body(s[2], counter, handlers)
             end = counter[0]
-            handlers.append((start, end, 0))
+            handlers[slot] = (start, end, 0)
             # the landing pc is `end`; the catch body follows
             layout_body(s[3], counter, handlers)
 
@@ -128,6 +137,8 @@ def js_body(stmts, probe_ids):
             out.append("%s(1);" % s[2].name)
         elif k == "loop":
             out.append("for(;;){}")
+        elif k == "finlimit":
+            out.append("try { throw 1; } catch (e) { throw 2; } finally { for(;;){} }")
         elif k == "classcall":
             out.append("%s(%s);" % (s[2].name, js_args(s[3])))
         elif k == "gencreate":
@@ -301,8 +312,9 @@ class Walk:
         if k == "try":
             a, out = self.body(s[2])
             if out == THROW:
+                # the catch block starts with the Exception opcode (pending_exception.take())
                 c, out2 = self.body(s[3])
-                return a + c, out2
+                return a + ["(exception)"] + c, out2
             return a, out
         if k == "throw":
             return [pc, "(throw)"], THROW
@@ -316,6 +328,9 @@ class Walk:
             return [pc, rec_chain(fn, depth)], LIMIT
         if k == "loop":
             return [pc, "(error 0)"], LIMIT
+        if k == "finlimit":
+            p = info["base"]
+            return ["(pc %d)" % (p + 1), "(throw)", "(exception)", "(pc %d)" % (p + 3), "(throw)", "(pc %d)" % (p + 7), "(error 0)"], LIMIT
         if k == "classcall":
             return [pc, "(push %d)" % (2 + s[3]), "(callerr 1)"], THROW
         if k == "gencreate":
@@ -434,8 +449,10 @@ class Builder:
         if want == LIMIT:
             if r < 0.45:
                 return mk("recurse", self.new_rec())
-            if r < 0.6:
+            if r < 0.55:
                 return mk("loop")
+            if r < 0.62:
+                return mk("finlimit")
             if depth < 4:
                 if r < 0.8:
                     return self.call_stmt(depth, LIMIT)
@@ -543,6 +560,43 @@ class Builder:
             elif f.kind == "rec":
                 self.recs.append(f)
 
+    def entry_module(self, want):
+        """Module::parse + load_link_evaluate + run_jobs of a module without imports; its first statement is a probe
+        from which the check derives the register count of the module's code block"""
+        self.nmain += 1
+        main = "mod%d" % self.nmain
+        if self.walk.jobs:
+            return None          # the op runs run_jobs itself: only with an empty job queue
+        first = self.probe()
+        # the module's code block cannot be dumped: its body only calls functions defined (and dumped) by earlier scripts
+        body = [first]
+        pool = [f for f in self.fns]
+        for _ in range(self.rng.randrange(0, 4)):
+            if pool and self.rng.random() < 0.6:
+                fn = self.rng.choice(pool)
+                body.append(mk("call", fn, ["lit"] * self.rng.randrange(0, 3), "call"))
+            else:
+                body.append(self.probe())
+        if want == THROW:
+            body.append(mk("throw"))
+        elif want == LIMIT:
+            body.append(mk(self.rng.choice(["loop", "finlimit"])))
+        defs = []
+        mainfn = Fn(main, "fn", 0, 0, body)
+        layout(mainfn)
+        for f in defs:
+            layout(f)
+        acts, out = self.walk.body(body)
+        text = self.script_text([d for d in defs if d.kind != "class"], []) + " " + " ".join(
+            "class %s { constructor(%s){ %s } }" % (d.name, ", ".join("p%d" % i for i in range(d.nparams)), js_body(d.body, None))
+            for d in defs if d.kind == "class") + " " + js_body(body, None)
+        ract = "(modlink R:%s) (eval R:%s %s 0 0 1 (%s))" % (main, main, self.walk.hs(mainfn), " ".join(acts))
+        cat = "module-" + {NORMAL: "ok", THROW: "throw", LIMIT: "limit"}[out]
+        e = Entry("module " + esc(text), ract, out, cat, defs, None)
+        e.module = main
+        e.first_probe = first[1]["id"]
+        return e
+
     def entry_decl_fail(self):
         self.nmain += 1
         main = "main%d" % self.nmain
@@ -622,7 +676,9 @@ def history(rng, n_entries, rlimit, slimit, looplimit, rich=True, fail_rate=0.45
             e = b.entry_eval(want)
         elif r < 0.5:
             e = b.entry_decl_fail()
-        elif r < 0.65:
+        elif r < 0.56 and rich:
+            e = b.entry_module(NORMAL if rng.random() < 0.6 else rng.choice([THROW, LIMIT]))
+        elif r < 0.66:
             e = b.entry_call(False)
         elif r < 0.75:
             e = b.entry_call(True)
